@@ -15,6 +15,7 @@ def fmtR (r : R) : String := s!"{r.cur} {r.bitno}"
 def step (st : St) (line : String) : St × String :=
   let toks := (line.trimAscii.toString.splitOn " ").filter (· ≠ "")
   match toks with
+  | ["reset"] => ({}, "ok")
   | ["w.new", n] => match n.toNat? with
     | some k => ({ st with w := W.new k }, "ok")
     | none => (st, "bad-op")
